@@ -349,7 +349,7 @@ func c12fProperty(t *rapid.T, st *Stats) {
 	fail := func(key, f string, a ...any) { Fail(t, st, key, fmt.Sprintf(f, a...), trace, nil) }
 	// ---- run 1: no fault, count the mutating calls
 	root0 := tmp + "/count"
-	vfs.Reset(root0, false)
+	vfs.Reset(root0, true)
 	h0 := olareg.New(c12fConf(root0))
 	for _, s := range steps {
 		s := s
@@ -364,6 +364,7 @@ func c12fProperty(t *rapid.T, st *Stats) {
 		}
 	}
 	total, totalReads := vfs.MutCount(), vfs.ReadCount()
+	indexReads := c12fReadOrdinals(vfs.Log(), root0, "/index.json")
 	_ = h0.Close()
 	if total == 0 {
 		st.Case([]string{"history without mutating call"}, false)
@@ -377,6 +378,10 @@ func c12fProperty(t *rapid.T, st *Stats) {
 		limit = totalReads
 	}
 	k := rapid.IntRange(1, limit).Draw(t, "faultAt")
+	if readFault && len(indexReads) > 0 && rapid.Bool().Draw(t, "readOfIndexJSON") {
+		// half of the reading faults go to the file everything else hangs on (uniform over its reads)
+		k = rapid.SampledFrom(indexReads).Draw(t, "indexRead")
+	}
 	k2 := 0
 	if !readFault && rapid.IntRange(0, 3).Draw(t, "secondFault") == 0 {
 		k2 = k + rapid.IntRange(1, 12).Draw(t, "secondFaultAfter")
@@ -440,6 +445,21 @@ func c12fProperty(t *rapid.T, st *Stats) {
 		classes = append(classes, "second-fault")
 	}
 	st.Case(append([]string{fmt.Sprintf("k=%d", k)}, trace...), faultStep >= 0 && laterSameRepo, classes...)
+}
+
+// c12fReadOrdinals returns the ordinals (1-based, among the reading calls under root) of the reads whose path ends with suffix.
+func c12fReadOrdinals(log []vfs.Op, root, suffix string) []int {
+	out, n := []int{}, 0
+	for _, op := range log {
+		if op.Mut || !(op.Path == root || strings.HasPrefix(op.Path, root+"/")) {
+			continue
+		}
+		n++
+		if strings.HasSuffix(op.Path, suffix) {
+			out = append(out, n)
+		}
+	}
+	return out
 }
 
 // c12fCount is the shim's running count of the kind of call the fault is armed on.
